@@ -23,7 +23,15 @@ def _impl_value(tok):
 
 
 def _match_one(x, m):
-    """x: implementation float; m: model token `p/q`, inf, -inf, nan."""
+    """x: implementation float; m: model token `p/q`, inf, -inf, nan; `p/q~e`: gradual underflow, absolute error bound e
+    (a thresholded voxel below FLT_MIN is a denormal float: absolute error 2^-149, amplified by the update factor)."""
+    extra = Fraction(0)
+    if "~" in m:
+        m, e = m.split("~", 1)
+        try:
+            extra = Fraction(e)
+        except (ValueError, ZeroDivisionError):
+            return False
     if m == "nan":
         return x != x
     if m in ("inf", "-inf"):
@@ -37,7 +45,7 @@ def _match_one(x, m):
     if x in (float("inf"), float("-inf")):
         # float overflow of a finite product: accept iff the exact value is beyond FLT_MAX
         return abs(q) >= FLT_MAX * (1 - REL) and (q > 0) == (x > 0)
-    return abs(Fraction(x) - q) <= REL * abs(q) + ABS
+    return abs(Fraction(x) - q) <= REL * abs(q) + ABS + extra
 
 
 def compare(op, impl, model):
@@ -63,9 +71,10 @@ def compare(op, impl, model):
             if abs(Fraction(xv) - q) > rel * abs(q) + ABS:
                 return False
         return True
-    if kind not in ("upd", "eoi", "setup", "uimg", "post", "init"):
+    if kind not in ("upd", "eoi", "setup", "uimg", "post", "init", "flt", "dvt"):
         return impl == model
-    if kind in ("post", "init"):      # no arithmetic between the observation and the answer: exact
+    # (`post` of the filter stream, section C: the user's post-filter may end with a thresholding member, which the model computes)
+    if kind == "init" or (kind == "post" and " C " not in op):      # no arithmetic between the observation and the answer: exact
         a, b = impl.split(), model.split()
         try:
             return len(a) == len(b) and bool(a) and all(Fraction(float.fromhex(x)) == Fraction(m) for x, m in zip(a, b))
@@ -109,11 +118,26 @@ def main(tier, replay):
         "inter-update/inter-iteration filters, post-filter, every number of subsets the library accepts, start subset, enforce_initial_positivity "
         "on/off, `zero end planes of segment 0` off/on (set_zero_seg0_end_planes and the parameter-file keyword; 1 and several subsets, with/without "
         "additive term and normalisation, span 1 / span 3 / view mashing / TOF), sensitivities computed / written to / read from files "
-        "(recompute sensitivity, sensitivity filename, subset sensitivity filenames: setters and keywords)) plus a synthetic stream through the class's virtual hooks (zeros, tiny values, negatives, values around every clamp). Per "
+        "(recompute sensitivity, sensitivity filename, subset sensitivity filenames: setters and keywords)); "
+        "a FILTER stream (round 4): user filters that are real registered data processors (Separable Gaussian, Separable Convolution with sharpening kernels "
+        "[-a 1+2a -a], Separable Cartesian Metz, Median, Minimal, Truncate To Cylindrical FOV, Threshold Min To Small Positive Value, the harness-defined filter) "
+        "alone and as the USER'S OWN ChainedDataProcessor objects (2 and 3 and more members, smoothing+sharpening in both orders, chains that hold a thresholding "
+        "member already, nested chains, chains with a null member) in the inter-update, the inter-iteration and the post-filter slot, given through the setters "
+        "AND parsed from parameter files (`inter-update filter type := Chained Data Processor` ...), on objects whose set_up() is called 1, 2 or 3 times in a row, "
+        "with/without prior and relative-change clamps: every sub-iteration is an `upd` (+ `eoi`, `post`) operation whose section C gives the number of set_up "
+        "calls and the slot's content (u = user filter, t = thresholding, c X Y = chain, n = null) and one F section per member filter (what that member, as an "
+        "object of its own, returned: data); the Lean model wraps the slot as OSMAPOSLReconstruction::set_up does - once per call, whatever the content - and "
+        "applies the resulting object (Slots.setUpN, updateEstimateS, endOfIterationS; post-filter: not wrapped); `flt`: the data processors on their own "
+        "(ChainedDataProcessor / ThresholdMinToSmallPositiveValueDataProcessor made by constructors or parsed, images with zeros, negatives, nothing positive) "
+        "against Filt.apply; `dvt`: divide_and_truncate through the public function on related viewgrams of the geometry (all-zero viewgrams: 0/0, zero and "
+        "negative denominators, zero / tiny / negative numerators, regular values) against divideAndTruncate (both branches within 2^-20 of a threshold); "
+        "plus a synthetic stream through the class's virtual hooks (zeros, tiny values, negatives, values around every clamp). Per "
         "sub-iteration: image before + the real objective function's subset gradient-plus-sensitivity, subset sensitivity, prior gradient (hex "
         "floats, data) -> image after; the Lean model recomputes the image after exactly in Rat; comparison per voxel |impl - model| <= 2^-16 "
         "|model| + 2^-148 (6 float roundings, the one of prior_gradient/num_subsets amplified <= 110x inside the clamp range [s/10,10s]); both "
-        "branches accepted where a comparison with the float threshold of stir::divide is within 2^-20. Further operations answered by the model: "
+        "branches accepted where a comparison with the float threshold of stir::divide is within 2^-20; gradual underflow: where the thresholded (filtered) "
+        "value of a voxel is below FLT_MIN = 2^-126 the implementation holds a denormal float (absolute error 2^-149) and the model's answer carries the absolute "
+        "bound |update factor| 2^-149 + 2^-148. Further operations answered by the model: "
         "`uimg` the image written by write_update_image (same tolerance), `post` what is saved as iterate k of a run with a post-filter (exact: "
         "filtered at k = num_subiterations only), `init` get_initial_data_ptr for initial estimate 0 / 1 / file (exact), `bal` acceptance of every "
         "number of subsets 1..views+1 by set_up (balanced subsets: projector symmetries as requested, views, TOF, view-mashing phi offset), `chk` "
@@ -132,6 +156,11 @@ def main(tier, replay):
         "function / projector / prior / normalisation parsed from Interfile copies of the data) = bitwise the in-memory path, "
         "sensitivity files (written file(s) = bitwise the sensitivity in use; a run reading them = bitwise the run computing them; files holding "
         "twice the sensitivity are the sensitivity in use), "
+        "filter stream: non-negativity after every sub-iteration with the user's filters on (NaN-aware: !(v >= 0) fails), strictly positive image after a fired "
+        "inter-iteration filter, repeated set_up leaves the start image alone, stepwise run = uninterrupted run of an object made the OTHER way (setters <-> "
+        "parameter file; bitwise, the post-filtered last iterate bitwise the user's post-filter members applied one by one), one restart point per case (bitwise); "
+        "viewgram space: every quotient of divide_and_truncate is a number in [0, 10^4] (NaN-aware), exactly 0 for a bin without counts (0/0 included), y/ybar on the "
+        "regular region, finite log-likelihood contribution; all non-negativity / positivity / finiteness tests of the harness are NaN-aware (a NaN is a failure); "
         "enforce_initial_positivity both ways (known finding restart:enforce-initial-positivity-lifts-exact-zeros: option on + exact zeros in the "
         "saved image; there the same restart point with the option off must be bitwise equal and the deviating run must be bitwise the run from "
         "the lifted image). Known finding em-formula:tof-subset-sensitivity-by-symmetries-of-non-tof-projector: TOF data, > 1 subset, subset "
@@ -144,7 +173,7 @@ def main(tier, replay):
     chk.assumptions += ["float rounding, overflow/underflow and signed zeros are not modelled (exact Rat + derived tolerance)",
                         "subset gradient-plus-sensitivity, subset sensitivities, prior gradient and user filters (inter-update, inter-iteration, post) are data for the model (C05/C09), except in the `emx` operations where the model forms numerator and sensitivity from the explicit system matrix (its elements are data: C04) on the regular region of divide_and_truncate",
                         "randomised subset order excluded (C06)",
-                        "user filters are harness-defined DataProcessors set through the setters also on objects made from a parameter file (a registered filter parsed from the file is not exercised); TOF data without normalisation and with the default `use time-of-flight sensitivities := 0` only; `sensitivity filename := 1` (sensitivity forced to 1) not exercised; a real step that turns a finite non-negative image into a non-finite one is judged (ORACLE-FAIL unless it is one of the two pinned TOF classes: known findings em-formula:tof-subset-sensitivity-by-symmetries-of-non-tof-projector and em-formula:tof-voxels-seen-by-tof-matrix-only-have-sensitivity-0) and ends its case; steps from images with negative values or near overflow that become non-finite end their case without verdict; zoom 1; parametric images, MPI, KOSMAPOSL not covered",
+                        "what a member filter (Gaussian, convolution, Metz, median ...) does to an image is data for the model (C09), taken from a separate object of that member made the same way (constructor or parsed); in the real / restart streams the user filters are harness-defined DataProcessors set through the setters also on objects made from a parameter file, in the filter stream they are registered processors and user chains by setters and by parameter file; Nonseparable Convolution Using Real DFT and HUToMu are not exercised as filters; filter-stream cases on TOF data end without verdict at a step of the two pinned TOF classes (sensitivity 0 with a positive numerator: judged by the real stream); NaN produced in VIEWGRAM space inside the objective function (other than by divide_and_truncate, which has its own oracle) is invisible in image space with matrix back projectors (NaN viewgram values are skipped as zeros under -ffast-math) and is the business of C05; TOF data without normalisation and with the default `use time-of-flight sensitivities := 0` only; `sensitivity filename := 1` (sensitivity forced to 1) not exercised; a real step that turns a finite non-negative image into a non-finite one is judged (ORACLE-FAIL unless it is one of the two pinned TOF classes: known findings em-formula:tof-subset-sensitivity-by-symmetries-of-non-tof-projector and em-formula:tof-voxels-seen-by-tof-matrix-only-have-sensitivity-0) and ends its case; steps from images with negative values or near overflow that become non-finite end their case without verdict; zoom 1; parametric images, MPI, KOSMAPOSL not covered",
                         "resuming from the post-filtered LAST image of a finished run is not a restart in the sense of the property (k < num_subiterations)"]
     if audit:
         vlib.proof_coverage(chk, audit, "cd lean && lake build StirVerif stirdriver && lake env lean ../build/out/Audit_C07.lean")
